@@ -72,54 +72,80 @@ class P(Prop):
                 sgn = rng.choice([1, -1])
                 for m_ in machines:
                     m_["e0"] = [sgn * abs(e) if e != 0 else sgn * rated_pti / 4 for e in m_["e0"]]
+            # steps at which the propeller idles (shaft load exactly 0) while the machine generates (PTO): the engines drive it
+            if rng.random() < 0.3:
+                for m_ in machines:
+                    for t_ in range(n):
+                        if not m_["full"][t_] and rng.random() < 0.4:
+                            m_["load"][t_] = Fraction(0)
+                            if not (m_.get("lsm") and m_["lsm"][t_] == 0):
+                                m_["e0"][t_] = -abs(m_["e0"][t_]) if m_["e0"][t_] != 0 else -rated_pti / 8
             share = nm == 2 and rng.random() < 0.5
             if share:            # both machines are handed THE SAME set-point array object
                 machines[1]["e0"] = machines[0]["e0"]
             rng.shuffle(comps)
             cons = {c["name"]: [Fraction(rng.randint(0, 16), 16) * 1000 for _ in range(n)] for c in comps if c["cls"] == "load"}
-            out.append({"elec": {"comps": comps, "breakers": [[k, k + 1] for k in range(1, nswb)], "swbs": swbs}, "mech": mech,
-                        "n": n, "machines": machines, "share_array": share, "cons": cons})
+            case = {"elec": {"comps": comps, "breakers": [[k, k + 1] for k in range(1, nswb)], "swbs": swbs}, "mech": mech,
+                    "n": n, "machines": machines, "share_array": share, "cons": cons}
+            # a second calculation of the same length on the same plant object: some sources switched off (at least one stays on),
+            # other consumer loads, the machines' set-points and flags supplied again
+            nsrc = sum(1 for c_ in comps if pg.kind_of(c_["cls"]) == "Source")
+            if rng.random() < 0.3 and nsrc >= 2 and not any(m_.get("lsm") for m_ in machines):
+                off = sorted(rng.sample(range(nsrc), rng.randint(1, nsrc - 1)))
+                import copy as _copy
+                m2 = _copy.deepcopy(machines)
+                for m_ in m2:
+                    m_["e0"] = [Fraction(rng.randint(-28, 28), 32) * rated_pti for _ in range(n)]
+                case["second"] = {"cons": {k_: [Fraction(rng.randint(0, 16), 16) * 1000 for _ in range(n)] for k_ in cons},
+                                  "machines": m2, "src_off": off, "share_array": False}
+            out.append(case)
         return out
 
-    def run(self, case):
-        from feems.components_model.utility import IntegrationMethod
-        from feems.exceptions import InputError
+    # ---- implementation side: build once, supply inputs, balance, observe (a second calculation may follow on the same object)
+    def build(self, case):
         from feems.system_model import HybridPropulsionSystem, MechanicalPropulsionSystem
-        n = case["n"]
-        try:
-            esys, eobjs = pg.build_electric_system(case["elec"])
-        except InputError:
-            return {"rejected": True}
+        esys, eobjs = pg.build_electric_system(case["elec"])
         byname = {d["name"]: o for d, o in zip(case["elec"]["comps"], eobjs)}
         ptis = [byname[m["name"]] for m in case["machines"]]
         mobjs = [pg.build_mechanical_component(d) for d in case["mech"]]
         msys = MechanicalPropulsionSystem("mech", mobjs + ptis)
-        hyb = HybridPropulsionSystem("hyb", esys, msys)
+        return {"esys": esys, "eobjs": eobjs, "ptis": ptis, "mobjs": mobjs, "msys": msys, "hyb": HybridPropulsionSystem("hyb", esys, msys)}
+
+    def supply(self, ctx, case, inp):
+        """inp: cons, machines (e0, load, full, lsm), share_array, src_off (indices, in component order, of sources switched off)"""
+        from feems.components_model.utility import IntegrationMethod
+        n = case["n"]
+        esys, eobjs, msys, mobjs, ptis = ctx["esys"], ctx["eobjs"], ctx["msys"], ctx["mobjs"], ctx["ptis"]
         esys.set_time_interval(np.full(n, 60.0), IntegrationMethod.sum_with_time)
-        if case["elec"]["breakers"]:
+        if case["elec"]["breakers"] and inp is case:      # the ties stay closed: set once, not again before a second calculation
             esys.set_bus_tie_status_all(np.ones((n, len(case["elec"]["breakers"])), dtype=bool))
-        shared = np.array([float(x) for x in case["machines"][0]["e0"]]) if case["share_array"] else None
+        shared = np.array([float(x) for x in inp["machines"][0]["e0"]]) if inp.get("share_array") else None
+        k_src = 0
         for d, o in zip(case["elec"]["comps"], eobjs):
             k = pg.kind_of(d["cls"])
             if k == "Consumer":
-                o.power_input = np.array([float(x) for x in case["cons"][d["name"]]])
+                o.power_input = np.array([float(x) for x in inp["cons"][d["name"]]])
             else:
-                o.status = np.ones(n, dtype=bool)
+                on = not (k == "Source" and k_src in (inp.get("src_off") or []))
+                o.status = np.ones(n, dtype=bool) if on else np.zeros(n, dtype=bool)      # assigned on the component, as pms_basic does
                 o.load_sharing_mode = np.ones(n) if k == "PtiPto" else np.zeros(n)
-        for m, o in zip(case["machines"], ptis):
+                k_src += (k == "Source")
+        for m, o in zip(inp["machines"], ptis):
             arr = shared if shared is not None else np.array([float(x) for x in m["e0"]])
             if m.get("lsm"):
                 o.load_sharing_mode = np.array([float(x) for x in m["lsm"]])
-            msys.set_power_input_pti_pto_by_value_for_name_shaft_line_id(m["name"], m["line"], arr)
+            if not (m.get("lsm") and not any(m["lsm"])):      # a machine that shares the load throughout is given no set-point
+                msys.set_power_input_pti_pto_by_value_for_name_shaft_line_id(m["name"], m["line"], arr)
             msys.set_full_pti_mode_for_name_shaft_line_id(m["name"], m["line"], np.array(m["full"], dtype=bool))
         for d, o in zip(case["mech"], mobjs):
             if d["cls"] == "propeller":
-                m = next(mm for mm in case["machines"] if mm["line"] == d["line"])
+                m = next(mm for mm in inp["machines"] if mm["line"] == d["line"])
                 o.power_input = np.array([float(x) for x in m["load"]])
             else:
                 o.status = np.ones(n, dtype=bool)
-        with np.errstate(all="ignore"):
-            hyb.do_power_balance_calculation()
+
+    def observe(self, ctx, case):
+        eobjs, mobjs, ptis = ctx["eobjs"], ctx["mobjs"], ctx["ptis"]
         res = {"machines": [], "pti_rated": float(ptis[0].rated_power),
                "sources": [[float(x) for x in o.power_output] for d, o in zip(case["elec"]["comps"], eobjs) if pg.kind_of(d["cls"]) == "Source"],
                "src_rated": [float(o.rated_power) for d, o in zip(case["elec"]["comps"], eobjs) if pg.kind_of(d["cls"]) == "Source"]}
@@ -130,22 +156,46 @@ class P(Prop):
                                     "eng_rated": [float(e.rated_power) for _, e in engs]})
         return res
 
+    def run(self, case):
+        from feems.exceptions import InputError
+        try:
+            ctx = self.build(case)
+        except InputError:
+            return {"rejected": True}
+        self.supply(ctx, case, case)
+        with np.errstate(all="ignore"):
+            ctx["hyb"].do_power_balance_calculation()
+        res = self.observe(ctx, case)
+        if case.get("second"):       # another calculation of the same length on the same plant object, some sources now switched off
+            self.supply(ctx, case, case["second"])
+            with np.errstate(all="ignore"):
+                ctx["hyb"].do_power_balance_calculation()
+            res["second"] = self.observe(ctx, case)
+        return res
+
     def term(self, case, obs):
         defs = {c["name"]: c for c in case["elec"]["comps"] if c["cls"] == "ptipto"}
         st = lambda d: core.coq_list([f"({core.coq_q(s['rated'])}, {coq_curve(s['eff'])})" for s in d["stages"]])
         if obs.get("rejected"):
             return "negb (" + " && ".join(f"serial_accepted {core.coq_q(d['rated'])} {st(d)}" for d in defs.values()) + ")%bool"
-        anyf = core.coq_bool(any(any(m["full"]) for m in case["machines"]))
         scale = core.coq_q(Fraction(max(obs["pti_rated"], sum(obs["src_rated"]))))
         lets = "".join(f"let p{j} := prepare {core.coq_q(defs[m['name']]['rated'])} (serial_fn (mk_stages {st(defs[m['name']])})) in "
                        for j, m in enumerate(case["machines"]))
         parts = []
+        for inp, ob in [(case, obs)] + ([(case["second"], obs["second"])] if case.get("second") and obs.get("second") else []):
+            self.term_run(case, inp, ob, defs, scale, parts)
+        return f"({lets}(" + "\n && ".join(parts) + ")%bool)"
+
+    def term_run(self, case, inp, obs, defs, scale, parts):
+        anyf = core.coq_bool(any(any(m["full"]) for m in inp["machines"]))
+        off = set(inp.get("src_off") or [])
+        on_rated = [Fraction(r) for k_, r in enumerate(obs["src_rated"]) if k_ not in off]
         for t in range(case["n"]):
-            cons = sum(v[t] for v in case["cons"].values())
+            cons = sum(v[t] for v in inp["cons"].values())
             net = core.coq_q(cons)
-            bal = [m for m in case["machines"] if m.get("lsm") and m["lsm"][t] == 0]      # sharing the load at this step
-            cap = sum(Fraction(r) for r in obs["src_rated"]) + sum(Fraction(defs[m["name"]]["rated"]) for m in bal)
-            for j, (m, o) in enumerate(zip(case["machines"], obs["machines"])):
+            bal = [m for m in inp["machines"] if m.get("lsm") and m["lsm"][t] == 0]      # sharing the load at this step
+            cap = sum(on_rated) + sum(Fraction(defs[m["name"]]["rated"]) for m in bal)
+            for j, (m, o) in enumerate(zip(inp["machines"], obs["machines"])):
                 e0 = core.coq_q(m['e0'][t]) if m not in bal else core.coq_q(-Fraction(defs[m['name']]['rated']) * Fraction(cons) / cap)
                 hin = (f"{{| h_e0 := {e0}; h_load := {core.coq_q(m['load'][t])}; "
                        f"h_full := {core.coq_bool(m['full'][t])}; h_any_full := {anyf}; h_bal := {core.coq_bool(m in bal)} |}}")
@@ -154,15 +204,25 @@ class P(Prop):
                              f"{core.coq_fl_list([e[t] for e in o['engines']])}")
                 if m not in bal:
                     net += f" + ebal p{j} {hin}"
-            parts.append(f"sources_ok_cap {core.coq_q_list([Fraction(r) for r in obs['src_rated']])} {core.coq_q(cap)} ({net}) {scale} "
-                         f"{core.coq_fl_list([s[t] for s in obs['sources']])}")
-        return f"({lets}(" + "\n && ".join(parts) + ")%bool)"
+            parts.append(f"sources_ok_cap {core.coq_q_list(on_rated)} {core.coq_q(cap)} ({net}) {scale} "
+                         f"{core.coq_fl_list([s_[t] for k_, s_ in enumerate(obs['sources']) if k_ not in off])}")
+            if off:          # sources that are switched off deliver nothing
+                parts.append(f"sources_ok_cap {core.coq_q_list([Fraction(obs['src_rated'][k_]) for k_ in sorted(off)])} 1 0 {scale} "
+                             f"{core.coq_fl_list([obs['sources'][k_][t] for k_ in sorted(off)])}")
 
     def oracle(self, case, obs):
         if obs.get("rejected"):
             return None
+        why = self.oracle_run(case, case, obs)
+        if why is None and case.get("second") and obs.get("second"):
+            why = self.oracle_run(case, case["second"], obs["second"])
+            if why:
+                why = "second calculation on the same plant object (some sources switched off, other loads): " + why
+        return why
+
+    def oracle_run(self, whole, case, obs):
         R = obs["pti_rated"]
-        for t in range(case["n"]):
+        for t in range(whole["n"]):
             cons = sum(float(v[t]) for v in case["cons"].values())
             src = sum(s[t] for s in obs["sources"])
             elec = sum(o["elec"][t] for o in obs["machines"])
@@ -213,6 +273,10 @@ class P(Prop):
             t.append("machines-share-one-setpoint-array")
         if any(m.get("lsm") for m in case["machines"]):
             t.append("machine-shares-the-load-on-some-steps(flag 0)")
+        if case.get("second"):
+            t.append("second-calculation-on-the-same-object(sources switched off)")
+        if any(l == 0 and not f for m in case["machines"] for l, f in zip(m["load"], m["full"])):
+            t.append("idle-propeller-step(shaft load 0) with PTO")
         es = [e for m in case["machines"] for e, f in zip(m["e0"], m["full"]) if not f]
         if es and (all(e < 0 for e in es) or all(e > 0 for e in es)):
             t.append("series-all-PTO" if es[0] < 0 else "series-all-PTI")
